@@ -48,7 +48,7 @@ NU_SCOPE_HEAD = '$"head:(.head tick | default {context_id: ' + "'none'" + '} | g
 SCOPE_PROBES = [(NU_SCOPE_CAT, '"{scope:cat}"'), (NU_SCOPE_HEAD, '"{scope:head}"')]
 # every generated script declares a module; `m1 f` calls into it (the `modules` option of handlers and commands)
 NU_MODULES = 'modules: {m1: "export def f [] { \\"mod\\" }"}'
-MODULE_CALL = ("m1 f", '"mod"')
+MODULE_CALL = ("(m1 f)", '"mod"')
 
 RETS = [  # (nu expression, JSON text the model expects as content; {n} = the call counter)
     ('"pong"', '"pong"'), ("$env.n", "{n}"), ('{a: 1, b: [1 2]}', '{"a":1,"b":[1,2]}'), ("[1 2 3]", "[1,2,3]"),
